@@ -25,45 +25,61 @@ StretchesOfLen(m) ==
 
 Cur == rec[cur]
 CurInst == Instance(Cur, S, J)
+Picked == cur >= 1
 Done == cur > Len(rec)
 
 StartL(r, c) == IF c > Len(r) THEN <<>> ELSE LoopInit(Instance(r[c], S, J))
 
+(* two phases so that TLC's workers share the enumeration: Init fixes the    *)
+(* stretch lengths and the rain of the first stretch (cur = 0: not all      *)
+(* chosen yet), Pick chooses the increments and the second stretch          *)
+Zeros(m) == [k \in 1..m |-> 0]
 Init ==
-    /\ \/ \E m \in 1..N1 : \E st \in StretchesOfLen(m) : rec = <<st>>
-       \/ \E m1 \in 1..N2, m2 \in 1..N2 :
-            \E a \in StretchesOfLen(m1), b \in StretchesOfLen(m2) : rec = <<a, b>>
-    /\ cur = 1
+    /\ \/ \E m \in 1..N1 : \E r \in [1..m -> RainVals] : rec = <<[rain |-> r, inc |-> <<>>]>>
+       \/ \E m1 \in 1..N2, m2 \in 1..N2 : \E r \in [1..m1 -> RainVals] :
+             rec = <<[rain |-> r, inc |-> <<>>], [rain |-> Zeros(m2), inc |-> <<>>]>>
+    /\ cur = 0
     /\ out = <<>>
-    /\ L = StartL(rec, 1)
+    /\ L = <<>>
+
+Pick ==
+    /\ cur = 0
+    /\ \E i1 \in [1..(Len(rec[1].rain) - 1) -> IncVals] :
+         LET first == [rain |-> rec[1].rain, inc |-> i1] IN
+         IF Len(rec) = 1
+         THEN rec' = <<first>> /\ L' = StartL(<<first>>, 1)
+         ELSE \E second \in StretchesOfLen(Len(rec[2].rain)) :
+                 rec' = <<first, second>> /\ L' = StartL(<<first, second>>, 1)
+    /\ cur' = 1
+    /\ UNCHANGED out
 
 (* one iteration of find_stable_matching on the current stretch *)
 LoopStep ==
-    /\ ~Done
+    /\ Picked /\ ~Done
     /\ ~LoopDone(L)
     /\ L' \in LoopSteps(CurInst, L)
     /\ UNCHANGED <<rec, cur, out>>
 
 (* the loop is over: write this stretch's rows, go to the next stretch *)
 FinishStretch ==
-    /\ ~Done
+    /\ Picked /\ ~Done
     /\ LoopDone(L)
     /\ out' = Append(out, Tables(Cur, S, J, L.M))
     /\ cur' = cur + 1
     /\ L' = StartL(rec, cur + 1)
     /\ UNCHANGED rec
 
-Finished == Done /\ UNCHANGED vars
+Finished == Picked /\ Done /\ UNCHANGED vars
 
-Next == LoopStep \/ FinishStretch \/ Finished
-Spec == Init /\ [][Next]_vars /\ WF_vars(LoopStep) /\ WF_vars(FinishStretch)
+Next == Pick \/ LoopStep \/ FinishStretch \/ Finished
+Spec == Init /\ [][Next]_vars /\ WF_vars(Pick) /\ WF_vars(LoopStep) /\ WF_vars(FinishStretch)
 
 ----------------------------------------------------------------------------
 (* C01 *)
-OneToOne == ~Done => IsMatching(L.M, CurInst.E)
-LoopInvariant == ~Done => LoopInv(CurInst, L)
-Progress == (~Done /\ ~LoopDone(L)) => LoopSteps(CurInst, L) # {}
-Termination == <>Done
+OneToOne == (Picked /\ ~Done) => IsMatching(L.M, CurInst.E)
+LoopInvariant == (Picked /\ ~Done) => LoopInv(CurInst, L)
+Progress == (Picked /\ ~Done /\ ~LoopDone(L)) => LoopSteps(CurInst, L) # {}
+Termination == <>(Picked /\ Done)
 (* a rise and an interstorm interval never start at the same sample, two   *)
 (* recorded storms never share a start: the keys of the tables are unique  *)
 KeysUnique ==
@@ -73,11 +89,11 @@ KeysUnique ==
         /\ \A a, b \in t.rise \cup t.inter : a[1] = b[1] => a = b
         /\ \A a, b \in t.pair : (a[1] = b[1] \/ a[2] = b[2]) => a = b
 (* C02 *)
-StableAtEnd == (~Done /\ LoopDone(L)) => NoBlockingPair(L.M, CurInst)
-OptimalAtEnd == (~Done /\ LoopDone(L) /\ NoTies(CurInst)) => IsStormOptimal(L.M, CurInst)
+StableAtEnd == (Picked /\ ~Done /\ LoopDone(L)) => NoBlockingPair(L.M, CurInst)
+OptimalAtEnd == (Picked /\ ~Done /\ LoopDone(L) /\ NoTies(CurInst)) => IsStormOptimal(L.M, CurInst)
 (* C03 / C04: the algorithms equal the definitions *)
 AlgorithmsEqualDefinitions ==
-    \A k \in 1..Len(rec) :
+    Picked => \A k \in 1..Len(rec) :
         /\ MasksEqualRuns(rec[k], S, J)
         /\ OnlineEqualsDeclarative(rec[k], J)
 (* C04: recorded interstorm intervals have >= 2 samples, are rain free, have
@@ -90,5 +106,5 @@ InterstormsSound ==
         /\ \A i \in (az[1] + 1)..az[2] : ~IsJumpAt(rec[k], J, i)
 
 EmitInv ==
-    (Emit /\ Done) => PrintT("EMIT " \o ToJson([rec |-> rec, out |-> out]))
+    (Emit /\ Picked /\ Done) => PrintT("EMIT " \o ToJson([rec |-> rec, out |-> out]))
 =============================================================================
